@@ -32,7 +32,7 @@ def run(ctx):
     b = daemon.build(ctx)
     parts = daemon.run_mode(ctx, b, "c07", 600000 if q else 20000000, dump=True)
     agg, viol, samples, incon = daemon.merge(parts, sum_keys=("evaluations", "file_checks"))
-    dumps = [p["_dump"] for p in parts if p]
+    dumps = [p["_dump"] for p in parts if p and not p.get("_crashed")]
     judged = 0
     neg = 0
     distinct = 0
